@@ -208,6 +208,24 @@ def treeShape : Val → Bool
     | _ => false
   | _ => false
 
+/-- `WrapHashFromArray` (hashtype.go): when the array's inferred element type is an Array type — i.e. it is non-empty and
+    every element is an array or a hash entry — each element must be a pair `[k, v]`; otherwise the elements are taken
+    two by two.  `none` = the Go code raises an argument error.  Equal keys are NOT merged. -/
+def isPairish : Val → Bool
+  | .arr _ => true
+  | .ent _ _ => true
+  | _ => false
+def pairOf : Val → Option Val
+  | .arr [k, v] => some (.ent k v)
+  | .ent k v => some (.ent k v)
+  | _ => none
+def twoByTwo : List Val → Option (List Val)
+  | [] => some []
+  | [_] => none
+  | k :: v :: rest => (twoByTwo rest).map (fun es => .ent k v :: es)
+def pairsOfArray (ys : List Val) : Option (List Val) :=
+  if !ys.isEmpty && ys.all isPairish then ys.mapM pairOf else twoByTwo ys
+
 def pairsFlat : List Val → List Val
   | [] => []
   | e :: es => entKey e :: entVal e :: pairsFlat es
@@ -256,7 +274,7 @@ inductive NewSite
   | arrAdd | arrAddAll | arrDelete | arrDeleteAll | arrMap | arrSelect | arrReject | arrSort | arrFlatten0 | arrUnique2
   | hashAdd0 | hashAdd1 | hashAddAll0 | hashDelete0 | hashDeleteAll1 | hashMap | hashMapValues | hashSelect | hashReject
   | hashSelectPairs | hashRejectPairs | hashMerge | hashSort | hashFlatten0 | hashFlatten1 | hashKeys | hashValues
-  | mutPutAll | hashEachSlice | hashAsArray | hashMapEntries
+  | mutPutAll | hashEachSlice | hashAsArray | hashMapEntries | hashAddAll1
   deriving Repr, DecidableEq
 
 /-- constructors -/
@@ -281,7 +299,7 @@ def NewSite.key : NewSite → String
   | .hashMerge => "Hash.Merge/r0" | .hashSort => "Hash.Sort/r0" | .hashFlatten0 => "Hash.Flatten/r0"
   | .hashFlatten1 => "Hash.Flatten/r1" | .hashKeys => "Hash.Keys/r0" | .hashValues => "Hash.Values/r0"
   | .mutPutAll => "MutableHashValue.PutAll/a0" | .hashEachSlice => "Hash.EachSlice/c0" | .hashAsArray => "Hash.AsArray/r0"
-  | .hashMapEntries => "Hash.MapEntries/r0"
+  | .hashMapEntries => "Hash.MapEntries/r0" | .hashAddAll1 => "Hash.AddAll/r1"
 
 /-- the method a site belongs to (its in-place-write rows are `<method>/w<n>`) -/
 def NewSite.method : NewSite → String
@@ -295,7 +313,7 @@ def NewSite.method : NewSite → String
   | .hashMerge => "Hash.Merge" | .hashSort => "Hash.Sort" | .hashFlatten0 => "Hash.Flatten"
   | .hashFlatten1 => "Hash.Flatten" | .hashKeys => "Hash.Keys" | .hashValues => "Hash.Values"
   | .mutPutAll => "MutableHashValue.PutAll" | .hashEachSlice => "Hash.EachSlice" | .hashAsArray => "Hash.AsArray"
-  | .hashMapEntries => "Hash.MapEntries"
+  | .hashMapEntries => "Hash.MapEntries" | .hashAddAll1 => "Hash.AddAll"
 
 def CtorSite.key : CtorSite → String
   | .wrapValues => "WrapValues/r0" | .wrapHash => "WrapHash/r0" | .buildArray => "BuildArray/r0"
@@ -428,7 +446,9 @@ def hashSem (look : Look) (r : Nat) (isMut : Bool) (es : List Val) : Op → Out
       | none => .same .hashDelete1 .hsh r
     | none => inapplicable
   | .addAll _ s => match look s with
-    | some (.arr, _) => inapplicable
+    | some (.arr, ys) => match pairsOfArray ys with
+      | some os => .new .hashAddAll1 .hsh r (mergeEntries es os) false
+      | none => .mark "!"
     | some (_, os) => .new .hashAddAll0 .hsh r (mergeEntries es os) false
     | none => inapplicable
   | .deleteAll _ s =>
